@@ -349,6 +349,7 @@ package argmapper
 //@   ensures  [mixed-marker-rejected] imp(count > 1 && exists(i, int, 0 <= i && i < count && isMarkerStruct(getT(get, i))), result1 != nil)
 //@   ensures  [lifted] imp(count >= 1 && forall(i, int, imp(0 <= i && i < count, !isMarkerStruct(getT(get, i)))), result1 == nil && liftedVS(result0, get, count) && fresh(result0))
 //@   ensures  [error-means-nil] imp(result1 != nil, result0 == nil)
+//@   ensures  [well-formed] imp(result1 == nil, vsWF(result0))
 //@   assigns  ValueSet, Value, valueInternal, []*Value, map[string]*Value, map[reflect.Type]*Value, map[string]string, []string, []interface{}, reflect.StructField, []reflect.StructField
 //@   modifies nothing
 //@   loop 1 invariant 0 <= i && i <= count && len(sf) == i && soff(sf) == 0 && (fresh(sf) || sf == nil)
@@ -364,6 +365,7 @@ package argmapper
 //@   ensures  [nil-or-non-func-rejected] imp(f == nil || kindof(dyntype(f)) != 19, result1 != nil)
 //@   ensures  [error-means-nil] imp(result1 != nil, result0 == nil)
 //@   ensures  [wraps-function] imp(result1 == nil, result0 != nil && fresh(result0) && f != nil && result0.fn == rvof(f) && kindof(dyntype(f)) == 19 && result0.onceResult == nil && result0.input != nil && result0.output != nil && fresh(result0.input) && fresh(result0.output) && result0.callOpts == opts)
+//@   ensures  [value-sets-well-formed] imp(result1 == nil, vsWF(result0.input) && vsWF(result0.output))
 //@   ensures  [once-only-with-the-option] imp(result1 == nil, forall(i, int, imp(0 <= i && i < len(opts) && fncode(opts[i]) == litcode("argmapper.FuncOnce$1"), result0.once)) && imp(forall(i, int, imp(0 <= i && i < len(opts), fncode(opts[i]) != litcode("argmapper.FuncOnce$1"))), !result0.once))
 //@   ensures  [inputs-empty] imp(result1 == nil && numIn(dyntype(f)) == 0, emptyVS(result0.input))
 //@   ensures  [inputs-lifted-0] imp(result1 == nil && numIn(dyntype(f)) >= 1 && forall(i, int, imp(0 <= i && i < numIn(dyntype(f)), !isMarkerStruct(inType(dyntype(f), i)))), liftedL0(result0.input, methodval("reflect.(Type).In", dyntype(f)), numIn(dyntype(f))))
@@ -578,6 +580,7 @@ package argmapper
 //@ func convertFunc
 //@   requires forall(i, int, imp(0 <= i && i < len(target), target[i] != nil))
 //@   ensures  [a-function] imp(result1 == nil, result0 != nil && fresh(result0) && valid(result0.fn) && kindof(rtypeof(result0.fn)) == 19 && result0.onceResult == nil && !result0.once)
+//@   ensures  [value-sets-well-formed] imp(result1 == nil, vsWF(result0.input) && vsWF(result0.output))
 //@   ensures  [identity-signature] imp(result1 == nil, numIn(rtypeof(result0.fn)) == len(target) && numOut(rtypeof(result0.fn)) == len(target) && forall(i, int, imp(0 <= i && i < len(target), inType(rtypeof(result0.fn), i) == target[i] && outType(rtypeof(result0.fn), i) == target[i])))
 //@   ensures  [error-means-nil] imp(result1 != nil, result0 == nil)
 //@   assigns  Func, argBuilder, NamedM, NamedSubM, TypedM, TypedSubM, []*Func, []ConverterGenFunc, ValueSet, Value, valueInternal, []*Value, map[string]*Value, map[reflect.Type]*Value, map[string]string, []string, []interface{}, reflect.StructField, []reflect.StructField, []Arg, rvstore, rvfresh
@@ -644,6 +647,8 @@ package argmapper
 //@   ensures  [failing-converter-error-returned-verbatim-target-not-reached] imp(failed != nil && !finalStep, result.buildErr == failed)
 //@   ensures  [target-with-missing-argument-not-executed] imp(finalStep && !cachedAtFinal && result.buildErr != nil, nexec == nexecAtFinal && len(result.out) == 0)
 //@   ensures  [no-failing-converter-when-the-target-is-reached] imp(finalStep, nexecAtFinal <= nexec)
+//@   ensures  [raw-outputs-of-the-target] imp(finalStep && !cachedAtFinal && result.buildErr == nil, len(result.out) == numOut(rtypeof(f.fn)) && forall(i, int, imp(0 <= i && i < len(result.out), valid(result.out[i]) && rtypeof(result.out[i]) == outType(rtypeof(f.fn), i))))
+//@   ensures  [function-unchanged] f.fn == old(f.fn) && f.once == old(f.once) && imp(!f.once, f.onceResult == old(f.onceResult)) && cachedAtFinal == (f.once && old(f.onceResult) != nil) || !finalStep
 //@   assigns  *
 //@   before "builder, buildErr := f.argBuilder(opts...)" set finalStep = false
 //@   before "return f.callDirect(log, argMap)" assert [target-reached-only-without-converter-failure] failed == nil
@@ -655,8 +660,8 @@ package argmapper
 // ---------------------------------------------------------------- convert.go: convertMulti, Convert (C10)
 //@ func convertMulti
 //@   requires !planning && forall(i, int, imp(0 <= i && i < len(target), target[i] != nil))
-//@   ensures  [error-or-values] (result1 != nil) == (result0 == nil) || len(target) == 0
 //@   ensures  [error-means-nil-values] imp(result1 != nil, result0 == nil)
+//@   ensures  [values-of-the-target-types] imp(result1 == nil, len(result0) == len(target) && forall(i, int, imp(0 <= i && i < len(target), valid(result0[i]) && rtypeof(result0[i]) == target[i])))
 //@   assigns  *
 //@ func Convert
 //@   requires !planning && target != nil
